@@ -706,73 +706,73 @@ def cwv_spec(ndim, numofq, onlypositive):
     return sorted(out)
 
 
-class ChooseWaveVector(Unit):
-    """BOUNDED stand-in (concrete numofq, the real AST executed by the engine with every loop unrolled): the returned rows are exactly
-    cwv_spec.  The unbounded proof needs a written invariant for the compaction loop (ghost rank arrays) and is not done."""
-    module = WV
-    qualname = "choosewavevector"
-    prop = "C04"
-    SIZES = {2: (0, 1, 2, 3, 5, 8, 12), 3: (0, 1, 3, 4, 6)}
-    OPTS = {2: (False, True, "x", "y"), 3: (False, True, "x", "y", "z")}
-
-    def cases(self):
-        return [f"bounded/d={d}/numofq={n}/onlypositive={o}" for d in (2, 3) for n in self.SIZES[d] for o in self.OPTS[d]]
-
-    @staticmethod
-    def parse(case):
-        p = dict(x.split("=") for x in case.split("/")[1:])
-        o = p["onlypositive"]
-        return int(p["d"]), int(p["numofq"]), (True if o == "True" else False if o == "False" else o)
-
-    def setup(self, ctx, case):
-        d, n, o = self.parse(case)
-        return [d, n, o], {}, {"d": d, "n": n, "o": o}
-
-    def clause_names(self, case):
-        return ["rows=documented-set"]
-
-    def ensures(self, ctx, case, inp, out):
-        r = out.value
-        d = inp["d"]
-        want = cwv_spec(d, inp["n"], inp["o"])
-        ok = isinstance(r, A.Arr) and r.ndim == 2 and sv.is_conc(r.shape[0]) and int(r.shape[0]) == len(want) and A.dim_eq_syntactic(r.shape[1], d) \
-            and r.dtype == "int"
-        if ok:
-            rows = []
-            for t in range(len(want)):
-                row = tuple(r.get((t, c)) for c in range(d))
-                if not all(sv.is_conc(x) for x in row):
-                    ok = False
-                    break
-                rows.append(tuple(int(x) for x in row))
-            ok = ok and sorted(rows) == want
-        yield "rows=documented-set", bool(ok)
-
-    def replay(self, case, clause, model, seed):
-        return _replay_cwv()
+def cwv_spec_fast(np, ndim, numofq, onlypositive):
+    """cwv_spec for large numofq with numpy integer arithmetic (same definition: exact integer square test), rows in lexicographic order"""
+    nh = int(numofq / 2)
+    ax = np.arange(-nh, nh, dtype=np.int64)
+    grids = np.meshgrid(*([ax] * ndim), indexing="ij")
+    v = np.stack([g.ravel() for g in grids], axis=1)                 # C order of "ij" grids = lexicographic order
+    k = (v * v).sum(axis=1)
+    r = np.floor(np.sqrt(k.astype(np.float64))).astype(np.int64)
+    sq = ((r * r == k) | ((r + 1) * (r + 1) == k) | ((r - 1) * (r - 1) == k)) & (k > 0)
+    if onlypositive is True:
+        sq &= (v >= 0).all(axis=1)
+    if isinstance(onlypositive, str):
+        a = "xyz".index(onlypositive)
+        others = [c for c in range(ndim) if c != a]
+        sq &= (v[:, a] > 0) & (v[:, others] == 0).all(axis=1)
+    return [tuple(int(x) for x in row) for row in v[sq]]
 
 
-def _replay_cwv():
+CWV_OPTS = {2: (False, True, "x", "y"), 3: (False, True, "x", "y", "z")}
+
+
+def _replay_cwv(model=None, seed=0):
+    """real choosewavevector against the documented set (independent implementation): the returned array must be a 2-D integer array whose
+    rows are EXACTLY the list cwv_spec(...) - same vectors, same (lexicographic) order, no duplicates.  Inputs: the solver model's numofq
+    first, every numofq <= 14 (2-D) / <= 10 (3-D), seeded larger ones, and one 2-D case large enough for a tolerance in the integer-norm
+    test to matter (numofq = 1004: |(501, 1)| = 501.000998)."""
     import importlib
+    import random
 
     import numpy as np
     W = importlib.import_module(WV)
-    n_checked = 0
+    rng = random.Random(seed)
+    todo = []
+    try:
+        mq = int((model or {}).get("numofq"))
+        if 0 <= mq <= 60:
+            todo += [(d, mq, o, True) for d in (2, 3) for o in CWV_OPTS[d] if d == 2 or mq <= 24]
+    except (TypeError, ValueError):
+        pass
     for d in (2, 3):
-        for n in range(0, 15 if d == 2 else 11):
-            for o in ChooseWaveVector.OPTS[d]:
-                try:
-                    got = W.choosewavevector(d, n, o)
-                except Exception as e:
-                    return {"ran": True, "failed": True, "inputs": {"ndim": d, "numofq": n, "onlypositive": o}, "detail": f"raises {type(e).__name__}: {e}"}
-                want = cwv_spec(d, n, o)
-                n_checked += 1
-                rows = sorted(tuple(int(x) for x in r) for r in np.asarray(got).reshape(-1, d))
-                if rows != want:
-                    extra = [r for r in rows if r not in want][:3]
-                    missing = [r for r in want if r not in rows][:3]
-                    return {"ran": True, "failed": True, "inputs": {"ndim": d, "numofq": n, "onlypositive": o},
-                            "detail": f"{len(rows)} rows, expected {len(want)}; not in the documented set: {extra}; missing: {missing}"}
+        todo += [(d, n, o, False) for n in range(0, 15 if d == 2 else 11) for o in CWV_OPTS[d]]
+        todo += [(d, rng.randint(15, 60) if d == 2 else rng.randint(11, 20), rng.choice(CWV_OPTS[d]), False) for _ in range(4)]
+    todo.append((2, 1004, False, False))
+    n_checked = 0
+    for d, n, o, from_model in todo:
+        inputs = {"ndim": d, "numofq": n, "onlypositive": o}
+        try:
+            got = W.choosewavevector(d, n, o)
+        except Exception as e:
+            return {"ran": True, "failed": True, "inputs": inputs, "from_model": from_model, "detail": f"raises {type(e).__name__}: {e}"}
+        want = cwv_spec(d, n, o) if n <= 40 else cwv_spec_fast(np, d, n, o)
+        n_checked += 1
+        got = np.asarray(got)
+        if got.ndim != 2 or got.shape[1] != d or not np.issubdtype(got.dtype, np.integer):
+            return {"ran": True, "failed": True, "inputs": inputs, "from_model": from_model,
+                    "detail": f"result has shape {got.shape} and dtype {got.dtype}, expected an integer array (M, {d})"}
+        rows = [tuple(int(x) for x in r) for r in got]
+        if rows != want:
+            sw = set(want)
+            extra = [r for r in rows if r not in sw][:3]
+            missing = [r for r in want if r not in set(rows)][:3]
+            dup = len(rows) != len(set(rows))
+            first = next((k for k, (a, b2) in enumerate(zip(rows, want)) if a != b2), min(len(rows), len(want)))
+            return {"ran": True, "failed": True, "inputs": inputs, "from_model": from_model, "searched": n_checked,
+                    "detail": f"{len(rows)} rows, expected {len(want)}; not in the documented set: {extra}; missing: {missing}; duplicates: {dup}; "
+                              f"first difference at row {first}: got {rows[first] if first < len(rows) else None}, expected "
+                              f"{want[first] if first < len(want) else None} (rows must be in the lexicographic order of the loops)"}
     return {"ran": True, "failed": False, "searched": n_checked}
 
 
@@ -812,7 +812,20 @@ class LexEnum:
         self.RK = z3.Function(f"LEXRANK{d}", *([I] * d), I)
         self.SF = z3.Function(f"LEXSEL{d}", I, I, I)
         self.lo = sv.neg(h)
-        self.CNT = self.rank_closed([h] + [self.lo] * (d - 1))
+        # every closed form and fact is built ONCE over placeholder constants and instantiated by substitution (the Sigma-terms are
+        # applications whose parameters are explicit arguments), so that the same sum is always the same term
+        self._P = [z3.Int(f"lex!p{c}") for c in range(d)]
+        self._R = [z3.Int("lex!r"), z3.Int("lex!r2")]
+        P = [sv.SV(x) for x in self._P]
+        self._partial_t = [sv.znum(self._partial_raw(P[:L], P[L])) for L in range(d)]
+        self.CNT = self.partial([], h)
+        self._fact_rank_t = self._fact_rank_raw(P)
+        self._fact_sel_t = self._fact_sel_raw(sv.SV(self._R[0]))
+        self._fact_inc_t = self._fact_increasing_raw(sv.SV(self._R[0]), sv.SV(self._R[1]))
+
+    @staticmethod
+    def _inst(template, consts, values):
+        return z3.substitute(template, *[(c, sv.znum(v.t if isinstance(v, sv.SV) else v)) for c, v in zip(consts, values)])
 
     def valid(self, p):
         from pyvc.libext.C04 import is_perfect_square
@@ -821,15 +834,24 @@ class LexEnum:
     def in_box(self, p):
         return sv.and_(*[sv.and_(sv.cmp(">=", x, self.lo), sv.cmp("<", x, self.h)) for x in p])
 
+    def _below_raw(self, pre):
+        if len(pre) == self.d:
+            return sv.ite(self.valid(pre), 1, 0)
+        return Sum(self.lo, self.h, lambda t: self._below_raw(list(pre) + [t]))
+
+    def _partial_raw(self, pre, j):
+        return Sum(self.lo, j, lambda t: self._below_raw(list(pre) + [t]))
+
+    def partial(self, pre, j):
+        """sum_{t=-h}^{j-1} below(pre + [t])"""
+        L = len(pre)
+        return sv.wrap(self._inst(self._partial_t[L], self._P[:L + 1], list(pre) + [j]))
+
     def below(self, pre):
         """number of members of D whose leading coordinates are `pre`"""
         if len(pre) == self.d:
             return sv.ite(self.valid(pre), 1, 0)
-        return Sum(self.lo, self.h, lambda t: self.below(list(pre) + [t]))
-
-    def partial(self, pre, j):
-        """sum_{t=-h}^{j-1} below(pre + [t])"""
-        return Sum(self.lo, j, lambda t: self.below(list(pre) + [t]))
+        return self.partial(pre, self.h)
 
     def rank_closed(self, p):
         return _sum([self.partial(list(p[:L]), p[L]) for L in range(self.d)])
@@ -844,21 +866,28 @@ class LexEnum:
         return [self.S(r, c) for c in range(self.d)]
 
     # facts (z3 terms), for explicit instantiation and for per-application instantiation (ctx.array_fact)
-    def fact_rank(self, p):
-        p = [sv.wrap(x) if isinstance(x, z3.ExprRef) else x for x in p]
+    def _fact_rank_raw(self, p):
         rk = self.rank(p)
         b = sv.implies(sv.and_(self.in_box(p), self.valid(p)),
                        sv.and_(sv.cmp(">=", rk, 0), sv.cmp("<", rk, self.CNT), *[sv.cmp("==", self.S(rk, c), p[c]) for c in range(self.d)]))
         return sv.zb(sv.and_(sv.cmp("==", rk, self.rank_closed(p)), b))
 
-    def fact_sel(self, r):
-        r = sv.wrap(r) if isinstance(r, z3.ExprRef) else r
+    def _fact_sel_raw(self, r):
         row = self.row(r)
         return sv.zb(sv.implies(sv.and_(sv.cmp(">=", r, 0), sv.cmp("<", r, self.CNT)),
                                 sv.and_(self.in_box(row), self.valid(row), sv.cmp("==", self.rank(row), r))))
 
-    def fact_increasing(self, r, r2):
+    def _fact_increasing_raw(self, r, r2):
         return sv.zb(sv.implies(sv.and_(sv.cmp(">=", r, 0), sv.cmp("<", r, r2), sv.cmp("<", r2, self.CNT)), _lex_lt(self.row(r), self.row(r2))))
+
+    def fact_rank(self, p):
+        return self._inst(self._fact_rank_t, self._P, list(p))
+
+    def fact_sel(self, r):
+        return self._inst(self._fact_sel_t, self._R[:1], [r])
+
+    def fact_increasing(self, r, r2):
+        return self._inst(self._fact_inc_t, self._R, [r, r2])
 
     def register(self, ctx):
         ctx.array_fact(self.RK.name(), lambda *p: self.fact_rank(list(p)))
@@ -918,7 +947,8 @@ class ChooseWaveVectorSym(Unit):
     qualname = "choosewavevector"
     prop = "C04"
     timeout = 30
-    OPTS = {2: (False, True, "x", "y"), 3: (False, True, "x", "y", "z")}
+    solver_opts = {"ext": False}       # the proofs need Sigma unfold / empty-range instances only (fewer instances: only weaker for proving)
+    OPTS = CWV_OPTS
 
     def cases(self):
         return [f"d={d}/numofq=symbolic/onlypositive={o}" for d in (2, 3) for o in self.OPTS[d]]
@@ -987,17 +1017,24 @@ class ChooseWaveVectorSym(Unit):
                 facts.append(E.fact_rank(list(outer) + [k, E.h] + [E.lo] * (d - 2 - L)))
             facts.append(self._count_bound(E, n))
             return facts
-        lbl = f"nest-level-{L}"
-        return written_summary(interp, s, frame, st, lo, hi, item_fn, {arr.sid: content_at}, env_at={cname: index_at}, label=lbl,
-                               assume_at=assume_at)
+        lbl = f"loop-level-{L}"
+        mark = len(st.side)
+        r = written_summary(interp, s, frame, st, lo, hi, item_fn, {arr.sid: content_at}, env_at={cname: index_at}, label=lbl,
+                            assume_at=assume_at)
+        for sg in st.side[mark:]:
+            if getattr(sg, "explicit", False) and str(sg.kind).startswith(lbl) and not getattr(sg, "clause", None):
+                sg.clause = self.INVARIANT
+        return r
 
     @staticmethod
     def _count_bound(E, n):
         """|D| <= numofq^d: instance of the induction lemmas `cwv:count-bound:*` (extra_checks)"""
         return sv.zb(sv.cmp("<=", E.CNT, sv.power(n, E.d)))
 
+    INVARIANT = "loop-invariant:index=rank(position);rows-below-index=lexicographic-enumeration;rows-from-index-on=0"
+
     def clause_names(self, case):
-        return ["result:2-D-int-array", "soundness:every-row-is-a-vector-of-the-documented-set", "completeness:every-vector-of-the-documented-set-is-a-row",
+        return [self.INVARIANT, "result:2-D-int-array", "soundness:every-row-is-a-vector-of-the-documented-set", "completeness:every-vector-of-the-documented-set-is-a-row",
                 "order:rows-strictly-increasing-in-loop-order(no-duplicates)"]
 
     @staticmethod
@@ -1019,9 +1056,9 @@ class ChooseWaveVectorSym(Unit):
         if isinstance(R, A.Masked):
             R = relops.masked_to_arr(R)          # assumed contract of a[mask]: rows of the selected positions in increasing order (SEL/RANK)
         ok = isinstance(R, A.Arr) and R.ndim == 2 and A.dim_eq_syntactic(R.shape[1], d) and R.dtype == "int"
-        yield names[0], bool(ok)
+        yield names[1], bool(ok)
         if not ok:
-            for nm in names[1:]:
+            for nm in names[2:]:
                 yield nm, False
             return
         M = R.shape[0]
@@ -1037,13 +1074,13 @@ class ChooseWaveVectorSym(Unit):
         int_t = sv.and_(sv.cmp(">=", t, 0), sv.cmp("<", t, M))
         bound = self._count_bound(E, n)
         top = E.fact_rank([E.h] + [E.lo] * (d - 1))
-        yield names[1], sv.implies(int_t, self.final_set(E, o, row_t)), {"assume": [bound, top]}
+        yield names[2], sv.implies(int_t, self.final_set(E, o, row_t)), {"assume": [bound, top]}
         # completeness: the row that holds n is found through the ranks: w = RANK_last(.. RANK_1(rank(n)))
         w = E.rank(nv)
         for cnt, SEL, RANK in layers:
             w = RANK(w)
         row_w = [R.get((w, c)) for c in range(d)]
-        yield names[2], sv.implies(self.final_set(E, o, nv), sv.and_(sv.cmp(">=", w, 0), sv.cmp("<", w, M), *[sv.cmp("==", row_w[c], nv[c]) for c in range(d)])), \
+        yield names[3], sv.implies(self.final_set(E, o, nv), sv.and_(sv.cmp(">=", w, 0), sv.cmp("<", w, M), *[sv.cmp("==", row_w[c], nv[c]) for c in range(d)])), \
             {"assume": [bound, top, E.fact_rank(nv)]}
         # order: every selection keeps the order of the rows (assumed: SEL increasing), the enumeration S is increasing (fact (c))
         mono, a, b = [], t, u
@@ -1051,51 +1088,54 @@ class ChooseWaveVectorSym(Unit):
             mono.append(sv.zb(sv.implies(sv.and_(sv.cmp(">=", a, 0), sv.cmp("<", a, b), sv.cmp("<", b, cnt)), sv.cmp("<", SEL(a), SEL(b)))))
             a, b = SEL(a), SEL(b)
         mono.append(E.fact_increasing(a, b))
-        yield names[3], sv.implies(sv.and_(int_t, sv.cmp("<", t, u), sv.cmp("<", u, M)), _lex_lt(row_t, row_u)), {"assume": [bound, top] + mono}
+        yield names[4], sv.implies(sv.and_(int_t, sv.cmp("<", t, u), sv.cmp("<", u, M)), _lex_lt(row_t, row_u)), {"assume": [bound, top] + mono}
 
     def replay(self, case, clause, model, seed):
-        return _replay_cwv()
+        return _replay_cwv(model, seed)
+
+
+def cwv_lemmas():
+    """|D| <= numofq^d (the compaction store never leaves the buffer) by induction over each axis, innermost first: with
+    P_L(pre, j) = sum_{t=-h}^{j-1} below(pre, t) and W = 2h,   0 <= P_L(pre, j) <= (j + h) W^(d-1-L)   for -h <= j <= h.
+    Every level has a base and a step obligation (the step of level L uses the claim of level L+1 at j = h, i.e.
+    below(pre, j) <= W^(d-1-L)); the induction principle over j is trusted.  Last: CNT = P_0((), h) <= W^d <= numofq^d."""
+    out = []
+    for d in (2, 3):
+        n = sv.integer("numofq")
+        h = sv.floordiv(n, 2)
+        E = LexEnum(d, h)
+        pre_ok = sv.cmp(">=", n, 0)
+        c = [1]
+        for m in range(1, d + 1):
+            c.append(sv.mul(2, sv.mul(h, c[m - 1])))
+
+        def claim(L, pre, x):
+            m = d - 1 - L
+            P = E.partial(pre, x)
+            return sv.and_(sv.cmp(">=", P, 0), sv.cmp("<=", P, sv.add(sv.mul(x, c[m]), sv.mul(h, c[m]))))
+        for L in range(d - 1, -1, -1):
+            pre = [sv.integer(f"a_{q}") for q in range(L)]
+            j = sv.integer("j")
+            out.append((f"cwv:count-bound:d={d}:axis-{L}:base", sv.implies(pre_ok, claim(L, pre, E.lo))))
+            hyp = [pre_ok, sv.cmp(">=", j, E.lo), sv.cmp("<", j, h), claim(L, pre, j)]
+            if L < d - 1:
+                hyp.append(claim(L + 1, pre + [j], h))
+            out.append((f"cwv:count-bound:d={d}:axis-{L}:step", sv.implies(sv.and_(*hyp), claim(L, pre, sv.add(j, 1)))))
+        out.append((f"cwv:count-bound:d={d}:|D|<=numofq^d", sv.implies(sv.and_(pre_ok, claim(0, [], h)), sv.SV(ChooseWaveVectorSym._count_bound(E, n)))))
+    return out
 
 
 UNITS = [Method(K) for K in (5, 4, 3, 2, 1)] + [Dispatch(), SqInit(), ChooseWaveVectorSym()]
-BOUNDED_UNITS = [ChooseWaveVector()]
-
-
-def _bounded_task(case):
-    import os
-
-    from pyvc import interp, vc
-    interp.REPO = os.environ.get("PYVC_REPO", "/repo")
-    r = vc.run_unit(BOUNDED_UNITS[0], case, "quick")
-    bad = [o for o in r["obligations"] if o["status"] != "PROVED"]
-    return {"case": case, "error": r.get("error"), "failed": [o["name"] for o in bad], "n": len(r["obligations"])}
-
-
 def extra_checks(tier, seed, repo):
-    """bounded stand-in for choosewavevector (reported under `bounded`, never counted as proved; a failing bounded case is reported
-    as a failing obligation so that a broken default wave-vector set is a VIOLATION) + lemmas on fresh symbols"""
-    import multiprocessing as mp
-    import os
+    """lemmas on fresh symbols: the algebra behind the sum rule / the sign of the diagonal terms, and the induction lemmas of the default
+    wave-vector set (|D| <= numofq^d).  No bounded stand-in is left: choosewavevector is under contract for symbolic numofq."""
     from pyvc.vc import prove_lemmas
-    cases = BOUNDED_UNITS[0].cases()
-    jobs = max(1, min(int(os.environ.get("PYVC_JOBS", "16")), len(cases)))
-    with mp.get_context("fork").Pool(jobs) as pool:
-        res = pool.map(_bounded_task, cases, chunksize=4)
-    bounded, obligations = [], []
-    for r in res:
-        ok = not r["error"] and not r["failed"]
-        bounded.append({"unit": f"choosewavevector[{r['case']}]", "sizes": r["case"], "verdict": "holds" if ok else "FAILS",
-                        "detail": r["error"] or r["failed"]})
-        if not ok:
-            obligations.append({"name": f"choosewavevector[{r['case']}]:rows=documented-set(bounded)", "status": "UNDECIDED" if r["error"] else "REFUTED",
-                                "ms": 0, "backends": ["engine-bounded"], "queries": 1, "replayable": True,
-                                "failed": [{"status": "REFUTED", "reason": str(r["error"] or r["failed"]), "backend": "engine-bounded", "ms": 0}]})
-    return {"obligations": obligations + prove_lemmas("C04", lemmas()), "bounded": bounded}
+    return {"obligations": prove_lemmas("C04", lemmas() + cwv_lemmas()), "bounded": []}
 
 
 def replay_extra(rec):
-    if "choosewavevector" in rec.get("obligation", ""):
-        return _replay_cwv()
+    if "choosewavevector" in rec.get("obligation", "") or ":cwv:" in rec.get("obligation", ""):
+        return _replay_cwv(rec.get("model"), int(rec.get("seed") or 0))
     return {"ran": False, "failed": False, "error": "no replay for this obligation"}
 
 
